@@ -85,7 +85,7 @@ class MySQLQueryBuilder(QueryBuilder):
                     updates.append(
                         "{field}={value}".format(
                             field=field.get_sql(on_conflict_ctx),
-                            value=value.get_sql(on_conflict_ctx),
+                            value=value.get_sql(on_conflict_ctx.copy(subquery=True)),
                         )
                     )
                 else:
